@@ -98,6 +98,20 @@ def handle (j : Json) : Except String Json := do
     match fromString (nm (← getStr j "s")) with
     | .error e => pure (errJ e)
     | .ok c => pure (jCfg c)
+  | "fromtuple" =>
+    let cfgs ← (← getArr j "configs").toList.mapM fun c => do
+      match c with
+      | Json.null => pure (none : Option Config)
+      | v => do
+        match mkConfig (← selsOf v) with
+        | .error _ => throw "bad-op"
+        | .ok cfg => pure (some cfg)
+    match fromTuple cfgs with
+    | .error e => pure (errJ e)
+    | .ok c =>
+      let q ← getStr j "query"
+      pure (Json.mkObj [("sels", jSels c), ("id", jStr (sn (stringId c))),
+                        ("selection", match getSelection c (nm q) with | none => Json.null | some v => jStr (sn v))])
   | "modify" =>
     let c : Controller := ⟨nm (← getStr j "name"), (← strList (← j.getObjVal? "specs")).map nm⟩
     match modifyController c (← getNat j "cur") (← getInt j "step") (← getBool j "circular") with
